@@ -58,6 +58,7 @@ func cmdCheck(args []string) int {
 	verif := fs.String("verif", "/verif", "")
 	prop := fs.String("prop", "", "property id")
 	tier := fs.String("tier", "quick", "quick|thorough")
+	dumpDir := fs.String("dump", "", "directory to dump queries")
 	fs.Parse(args)
 	if *prop == "" {
 		fmt.Fprintln(os.Stderr, "check: -prop required")
@@ -197,10 +198,23 @@ func cmdCheck(args []string) int {
 	}
 	SolveAll(all, cc.timeout, *tier == "thorough", 10)
 	solveS := time.Since(start).Seconds() - loadS - genS
+	if *dumpDir != "" {
+		os.MkdirAll(*dumpDir, 0o755)
+		for i, o := range all {
+			os.WriteFile(filepath.Join(*dumpDir, fmt.Sprintf("%s_%03d.smt2", sanitize(o.Name), i)), []byte("(set-logic ALL)\n"+o.Decls+addUnfoldings(o.Decls, o.Query)+"(check-sat)\n"), 0o644)
+		}
+	}
 	for _, f := range frames {
 		cc.frameRes = append(cc.frameRes, f.Run(prog, cc.cs)...)
 	}
 	cc.reports = reports
+	if os.Getenv("GOVC_SLOW") != "" {
+		for _, o := range all {
+			if o.Result != nil && o.Result.Time > 2 {
+				fmt.Printf("slow %.1fs %s %s %s\n", o.Result.Time, o.Result.Status, o.Result.Backend, o.Name)
+			}
+		}
+	}
 
 	// ------------------------------------------------------------ verdict
 	type failure struct {
